@@ -14,7 +14,7 @@ namespace Mistral.WithItems
 
 /-! ### nothing fails: the old transactions -/
 
-theorem inputFails_clean (s : WI) : inputFails {} s = false := by
+theorem inputFails_clean (nr : Bool) (s : WI) : inputFails {} nr s = false := by
   simp [inputFails]
 
 theorem scheduleEval_clean (s : WI) : scheduleEval {} s = scheduleActions s := by
@@ -79,7 +79,7 @@ theorem scheduleEval_created (e : EvalSpec) (s : WI) :
 /-- a scheduling round in which some item input of the portion fails to evaluate schedules NO
     action and the task becomes ERROR; everything else the transaction wrote stays -/
 theorem scheduleEval_input_failure (e : EvalSpec) (s : WI) (hi : e.itemsOk = true)
-    (hf : inputFails e (prepare s) = true) :
+    (hf : inputFails e (!s.prepared) (prepare s) = true) :
     (scheduleEval e s).items = s.items ∧ (scheduleEval e s).tstate = .error ∧
       running (scheduleEval e s) = running s ∧ (scheduleEval e s).unhandled = s.unhandled := by
   simp [scheduleEval, hi, hf, failTask, prepare_items, running]
@@ -302,5 +302,213 @@ theorem dead_runE (e : EvalSpec) (he : e.itemsOk = false ∨ e.concOk = false) {
 
 theorem dead_init (n : Nat) (c : Option Nat) (r : Nat) : Dead (init n c r) := by
   simp [Dead, init]
+
+/-! ### after the repository fix: inputs of ALL items are checked when the task is (re)started
+
+With a fixed failure table either some index `< n` is bad — then the first start (and every rerun)
+fails before anything is created and nothing is ever started — or none is, and then no evaluation
+can ever fail: every index the code evaluates is `< n`. -/
+
+theorem mem_rangeFromTo {a b i : Nat} (h : i ∈ rangeFromTo a b) : i < b := by
+  unfold rangeFromTo at h
+  have := List.mem_range'_1.mp h
+  omega
+
+/-- every index the code is about to process lies below the item count -/
+theorem indices_lt {s : WI} (hL : LiveInv s) (hp : s.prepared = true) : ∀ i ∈ indices s, i < s.specCount := by
+  intro i hi
+  have hc := hL.cnt hp
+  obtain ⟨m, hm, hlt, _⟩ := hL.front
+  unfold indices at hi
+  split at hi
+  · rename_i mx _
+    rcases List.mem_append.mp hi with h | h
+    · exact Nat.lt_of_lt_of_le (hlt i (candidates_occur h)) hm
+    · split at h
+      · have := mem_rangeFromTo (List.mem_filter.mp h).1
+        omega
+      · simp at h
+  · have := mem_rangeFromTo hi
+    omega
+
+theorem evalIndexes_lt {s : WI} (hL : LiveInv s) (hp : s.prepared = true) (nr : Bool) :
+    ∀ i ∈ evalIndexes nr s, i < s.specCount := by
+  intro i hi
+  unfold evalIndexes at hi
+  split at hi
+  · exact indices_lt hL hp i hi
+  · exact indices_lt hL hp i (mem_takeCap hi)
+
+/-- no index below `n` is bad -/
+def NoBad (e : EvalSpec) (n : Nat) : Prop := ∀ b ∈ e.badInputs, n ≤ b
+
+theorem inputFails_noBad {e : EvalSpec} {s : WI} (hL : LiveInv s) (hp : s.prepared = true)
+    (hb : NoBad e s.specCount) (nr : Bool) : inputFails e nr s = false := by
+  unfold inputFails
+  rw [List.any_eq_false]
+  intro i hi hc
+  have h1 := evalIndexes_lt hL hp nr i hi
+  have h2 := hb i (by simpa using hc)
+  omega
+
+theorem prepare_liveInv {s : WI} (hL : LiveInv s) : LiveInv (prepare s) ∧ (prepare s).prepared = true ∧
+    (prepare s).specCount = s.specCount := by
+  unfold prepare
+  split
+  · rename_i h; exact ⟨hL, h, rfl⟩
+  · exact ⟨liveInv_same_items (s := s) rfl rfl (fun _ => rfl) hL, rfl, rfl⟩
+
+theorem scheduleEval_noBad {e : EvalSpec} {s : WI} (hi : e.itemsOk = true) (hL : LiveInv s)
+    (hb : NoBad e s.specCount) : scheduleEval e s = scheduleActions s := by
+  obtain ⟨h1, h2, h3⟩ := prepare_liveInv hL
+  unfold scheduleEval
+  simp [hi, inputFails_noBad h1 h2 (by rw [h3]; exact hb)]
+
+theorem stepE_noBad {e : EvalSpec} {s : WI} (hi : e.itemsOk = true) (hc : e.concOk = true) (hL : LiveInv s)
+    (hb : NoBad e s.specCount) (op : Op) : stepE e s op = step s op := by
+  cases op with
+  | start =>
+    simp only [stepE, step, hc]
+    split
+    · simp only [Bool.not_true, Bool.false_eq_true, if_false]
+      exact scheduleEval_noBad hi (liveInv_same_items (s := s) rfl rfl hL.cnt hL) hb
+    · rfl
+  | result pos o => rfl
+  | handled =>
+    simp only [stepE, step]
+    split
+    · rfl
+    · have h0 : LiveInv { s with unhandled := s.unhandled - 1 } := liveInv_same_items (s := s) rfl rfl hL.cnt hL
+      unfold onActionCompleteE onActionComplete
+      split
+      · rfl
+      · obtain ⟨g1, g2, g3, g4, g5, g6, g7⟩ := increaseCapacity_fields { s with unhandled := s.unhandled - 1 }
+        have h1 : LiveInv (increaseCapacity { s with unhandled := s.unhandled - 1 }) :=
+          liveInv_same_items g1 g5 (by rw [g3, g4, g5]; exact h0.cnt) h0
+        simp only []
+        split
+        · rfl
+        · split
+          · exact scheduleEval_noBad hi h1 (by rw [g5]; exact hb)
+          · rfl
+  | rerun reset =>
+    simp only [stepE, step, hc]
+    split
+    · simp only [Bool.not_true, Bool.false_eq_true, if_false]
+      exact scheduleEval_noBad hi
+        (liveInv_map (s := s) (resetOne reset) (resetActions_eq reset s.items) (resetOne_index reset)
+          (resetOne_live reset) rfl (fun h => by simp at h) hL) hb
+    · rfl
+  | «continue» =>
+    simp only [stepE, step]
+    split
+    · exact scheduleEval_noBad hi
+        (liveInv_map (s := s) (resetOne false) (resetActions_eq false s.items) (resetOne_index false)
+          (resetOne_live false) rfl hL.cnt hL) hb
+    · rfl
+
+theorem runE_noBad {e : EvalSpec} (hi : e.itemsOk = true) (hc : e.concOk = true) :
+    ∀ (ops : List Op) (s : WI), LiveInv s → NoBad e s.specCount → runE e s ops = run s ops := by
+  intro ops
+  induction ops with
+  | nil => intro s _ _; rfl
+  | cons o os ih =>
+    intro s hL hb
+    show runE e (stepE e s o) os = run (step s o) os
+    rw [stepE_noBad hi hc hL hb o]
+    exact ih _ (liveInv_step hL o) (by rw [(step_spec s o).1]; exact hb)
+
+/-- nothing was ever started and a start will evaluate all items: no execution, no pending
+    completion, task IDLE (runtime context not prepared yet) or ERROR -/
+def DeadP (s : WI) : Prop :=
+  s.items = [] ∧ s.unhandled = 0 ∧ ((s.tstate = .idle ∧ s.prepared = false) ∨ s.tstate = .error)
+
+theorem indices_empty {s : WI} (hi : s.items = []) : indices s = List.range' 0 s.count := by
+  simp [indices, candidates, unacceptedIdx, takenIdx, sortDedup, nextStartIndex, rangeFromTo, hi]
+
+/-- a (re)start of a task without executions fails when some index `< n` is bad -/
+theorem scheduleEval_bad_fresh {e : EvalSpec} {s : WI} {b : Nat} (hio : e.itemsOk = true)
+    (hb : b ∈ e.badInputs) (hlt : b < s.specCount) (hitems : s.items = []) (hp : s.prepared = false) :
+    scheduleEval e s = failTask (prepare s) := by
+  have hprep : prepare s = { s with prepared := true, capacity := s.concurrency, count := s.specCount } := by
+    simp [prepare, hp]
+  have hf : inputFails e (!s.prepared) (prepare s) = true := by
+    rw [hp, hprep]
+    simp only [inputFails, evalIndexes, Bool.not_false, if_true]
+    rw [indices_empty (by simpa using hitems)]
+    rw [List.any_eq_true]
+    exact ⟨b, List.mem_range'_1.mpr ⟨Nat.zero_le _, by simpa using hlt⟩, by simpa using hb⟩
+  unfold scheduleEval
+  simp [hio, hf]
+
+theorem deadP_stepE {e : EvalSpec} {b : Nat} (hio : e.itemsOk = true) (hb : b ∈ e.badInputs) {s : WI}
+    (hlt : b < s.specCount) (hd : DeadP s) (op : Op) :
+    DeadP (stepE e s op) ∧ (stepE e s op).specCount = s.specCount := by
+  obtain ⟨hi, hu, ht⟩ := hd
+  cases op with
+  | start =>
+    simp only [stepE]; split
+    · rename_i hidle
+      have hp : s.prepared = false := by
+        rcases ht with ⟨_, h⟩ | h
+        · exact h
+        · rw [hidle] at h; cases h
+      split
+      · exact ⟨⟨hi, hu, Or.inr rfl⟩, rfl⟩
+      · rw [scheduleEval_bad_fresh hio hb (by exact hlt) (by exact hi) (by exact hp)]
+        refine ⟨⟨by simp [failTask, prepare_items, hi], by simp [failTask, prepare, hp, hu], Or.inr rfl⟩, ?_⟩
+        simp [failTask, prepare, hp]
+    · exact ⟨⟨hi, hu, ht⟩, rfl⟩
+  | result pos o =>
+    simp [stepE, step, hi]
+    exact ⟨hi, hu, ht⟩
+  | handled =>
+    simp [stepE, hu]
+    exact ⟨hi, hu, ht⟩
+  | rerun reset =>
+    simp only [stepE]; split
+    · split
+      · exact ⟨⟨hi, hu, Or.inr rfl⟩, rfl⟩
+      · rw [scheduleEval_bad_fresh hio hb (by exact hlt) (by simp [hi, resetActions]) rfl]
+        refine ⟨⟨by simp [failTask, prepare_items, hi, resetActions], by simp [failTask, prepare, hu], Or.inr rfl⟩, ?_⟩
+        simp [failTask, prepare]
+    · exact ⟨⟨hi, hu, ht⟩, rfl⟩
+  | «continue» =>
+    simp only [stepE]; split
+    · rename_i hdl
+      rcases ht with ⟨h, _⟩ | h <;> rw [h] at hdl <;> cases hdl
+    · exact ⟨⟨hi, hu, ht⟩, rfl⟩
+
+theorem deadP_runE {e : EvalSpec} {b : Nat} (hio : e.itemsOk = true) (hb : b ∈ e.badInputs) :
+    ∀ (ops : List Op) (s : WI), b < s.specCount → DeadP s → DeadP (runE e s ops) := by
+  intro ops
+  induction ops with
+  | nil => intro s _ hd; exact hd
+  | cons o os ih =>
+    intro s hlt hd
+    obtain ⟨h1, h2⟩ := deadP_stepE hio hb hlt hd o
+    exact ih _ (by rw [h2]; exact hlt) h1
+
+theorem deadP_init (n : Nat) (c : Option Nat) (r : Nat) : DeadP (init n c r) := by
+  simp [DeadP, init]
+
+/-- the three kinds of failure tables: something below `n` cannot be evaluated (items, concurrency
+    or an item input) — nothing is ever started; or nothing can fail — the clean history -/
+theorem runE_cases (e : EvalSpec) (n : Nat) (c : Option Nat) (r : Nat) (ops : List Op) :
+    (runE e (init n c r) ops).items = [] ∨ runE e (init n c r) ops = run (init n c r) ops := by
+  by_cases h1 : e.itemsOk = true
+  · by_cases h2 : e.concOk = true
+    · by_cases h3 : ∃ b ∈ e.badInputs, b < n
+      · obtain ⟨b, hb, hlt⟩ := h3
+        exact Or.inl (deadP_runE h1 hb ops _ (by simpa [init] using hlt) (deadP_init n c r)).1
+      · right
+        apply runE_noBad h1 h2 ops _ (liveInv_init n c r)
+        intro b hb
+        simp only [init]
+        by_cases hlt : b < n
+        · exact absurd ⟨b, hb, hlt⟩ h3
+        · omega
+    · exact Or.inl (dead_runE e (Or.inr (by simpa using h2)) (dead_init n c r) ops).1
+  · exact Or.inl (dead_runE e (Or.inl (by simpa using h1)) (dead_init n c r) ops).1
 
 end Mistral.WithItems
